@@ -2,4 +2,5 @@ SPECIFICATION TSpec
 CONSTANTS
   MaxOps = 1
   OpSet = "all"
+  Atoms = "simple"
   Emit = FALSE
